@@ -54,6 +54,9 @@ static CO_ERR UtUserWrite(CO_OBJ *o, CO_NODE *n, void *b, uint32_t s)
     *(uint32_t *)o->Data = *(uint32_t *)b; return CO_ERR_NONE;
 }
 /* a parameter group over the 32-bit variable 2002h whose NVM image differs from RAM (changed and not saved): reading 1010h must not load it */
+#if CO_SSDO_N > 1
+static uint32_t S1Id[2]; static const uint32_t S1IdDflt[2] = { 0x6C1, 0x5C1 }; static CO_PARA SdoPara3;
+#endif
 static CO_PARA SdoPara, SdoPara2; static uint32_t SdoParaDflt = 0x0D0E0F00u;      /* second group: reset type node, over 2001h */
 static const CO_OBJ_TYPE UtRange = { UtSize, 0, UtRead, UtRangeWrite, 0 };
 static const CO_OBJ_TYPE UtUser  = { UtSize, 0, UtRead, UtUserWrite, 0 };
@@ -102,13 +105,18 @@ static void sdo_world_build(uint32_t nmt_operational)
     StrO3.Offset = 0; StrO3.Start = Str3; StrO5.Offset = 0; StrO5.Start = Str5; StrO12.Offset = 0; StrO12.Start = Str12;
     od_init(&b, OD, 64); od_mandatory(&b, &ErrReg); od_sdo_server0(&b);
 #if CO_SSDO_N > 1
+    /* the second server's identifiers are writable and live in a stored communication parameter group (1010h:3): RAM and NVM can differ at a reset */
+    S1Id[0] = 0x6C1; S1Id[1] = 0x5C1;
     od_add(&b, CO_KEY(0x1201, 0, CO_OBJ_D___R_), CO_TUNSIGNED8,  (CO_DATA)2);
-    od_add(&b, CO_KEY(0x1201, 1, CO_OBJ_D___R_), CO_TUNSIGNED32, (CO_DATA)0x6C1);
-    od_add(&b, CO_KEY(0x1201, 2, CO_OBJ_D___R_), CO_TUNSIGNED32, (CO_DATA)0x5C1);
+    od_add(&b, CO_KEY(0x1201, 1, CO_OBJ_____RW), CO_TSDO_ID, (CO_DATA)&S1Id[0]);
+    od_add(&b, CO_KEY(0x1201, 2, CO_OBJ_____RW), CO_TSDO_ID, (CO_DATA)&S1Id[1]);
+    SdoPara3.Offset = 0x70; SdoPara3.Size = 8; SdoPara3.Start = (uint8_t *)S1Id; SdoPara3.Default = (uint8_t *)S1IdDflt; SdoPara3.Type = CO_RESET_COM; SdoPara3.Ident = (void *)"s1"; SdoPara3.Value = CO_PARA___E;
+    memcpy(&DRV.nvm[0x70], S1Id, 8);
+    od_add(&b, CO_KEY(0x1010, 3, CO_OBJ_____RW), CO_TPARA_STORE, (CO_DATA)&SdoPara3);
 #endif
     SdoPara.Offset = 0x60; SdoPara.Size = 4; SdoPara.Start = (uint8_t *)&V32; SdoPara.Default = (uint8_t *)&SdoParaDflt; SdoPara.Type = CO_RESET_COM; SdoPara.Ident = (void *)"v32"; SdoPara.Value = CO_PARA___E;
     SdoPara2.Offset = 0x68; SdoPara2.Size = 2; SdoPara2.Start = (uint8_t *)&V16; SdoPara2.Default = (uint8_t *)&SdoParaDflt; SdoPara2.Type = CO_RESET_NODE; SdoPara2.Ident = (void *)"v16"; SdoPara2.Value = CO_PARA___E;
-    od_add(&b, CO_KEY(0x1010, 0, CO_OBJ_D___R_), CO_TPARA_STORE, (CO_DATA)2);
+    od_add(&b, CO_KEY(0x1010, 0, CO_OBJ_D___R_), CO_TPARA_STORE, (CO_DATA)(CO_SSDO_N > 1 ? 3 : 2));
     od_add(&b, CO_KEY(0x1010, 1, CO_OBJ_____RW), CO_TPARA_STORE, (CO_DATA)&SdoPara);
     od_add(&b, CO_KEY(0x1010, 2, CO_OBJ_____RW), CO_TPARA_STORE, (CO_DATA)&SdoPara2);
     memcpy(&DRV.nvm[0x60], &V32, 4); memcpy(&DRV.nvm[0x68], &V16, 2);  /* the image the node starts from */
@@ -163,6 +171,9 @@ static void sdo_world_build(uint32_t nmt_operational)
     (void)CONodeGetErr(&Node);
     { uint32_t other = 0xDEADBEEFu; memcpy(&DRV.nvm[0x60], &other, 4); memcpy(&DRV.nvm[0x68], &other, 2); }   /* NVM and RAM differ from now on */
     W_REG(SdoPara); W_REG(SdoPara2);
+#if CO_SSDO_N > 1
+    W_REG(S1Id); W_REG(SdoPara3);
+#endif
     memset(MV, 0, sizeof MV);
     for (i = 0; i < O_N; i++) impl_value(i, MV[i]);
     memcpy(MV0, MV, sizeof MV0);
